@@ -182,4 +182,9 @@ def accessesOk (L : Int) (dc : Int) (app : App) : Nat → Arch → Bool
     | .next a' _ => accessesOk L dc app fuel a'
     | .halt _ _ => true
 
+/-- THE hypothesis of the MVP-3 theorems (Props/C05, C09, C01, C07, C12), for the constants of proc/mvp3:
+the driver prints it as `h3=` for every case -/
+def wfAccesses (app : App) (a : Arch) (fuel : Nat) : Bool :=
+  accessesOk mvp3Config.l1DLineSize Gen.Consts.mvp1.cyclesDecode app fuel a
+
 end Model.Mvp3
